@@ -248,6 +248,9 @@ pub fn gen(rng: &mut Rng, focus: SFocus) -> ServerScn {
     if matches!(focus, SFocus::Deadlines | SFocus::Dups) && rng.chance(30) {
         return gen_overdue_reuse(rng);
     }
+    if focus == SFocus::Deadlines && rng.chance(3) {
+        return gen_overdue_flood(rng);
+    }
     if focus == SFocus::Limit && rng.chance(40) {
         return gen_prebusy(rng);
     }
@@ -549,6 +552,42 @@ fn gen_mega(rng: &mut Rng) -> ServerScn {
         long: false,
         spurious_permille: 0,
         jumps: vec![],
+        pre_read: 0,
+        chain: None,
+        via_listener: false,
+    }
+}
+
+/// Hundreds of requests fall overdue in one clock step while their handlers finish inside that
+/// step: when the channel runs again it finds more due timers than one poll's cooperative budget
+/// (128 operations) lets it reap, and as many finished responses waiting in the buffer.
+fn gen_overdue_flood(rng: &mut Rng) -> ServerScn {
+    let n = rng.range(140, 320) as usize;
+    let deadline = rng.range(4, 6) as i64;
+    let mut script = Vec::new();
+    let mut handlers = Vec::new();
+    for _ in 0..n {
+        script.push(PeerAct { delay_ms: 0, kind: PeerKind::Req { id: IdRef::Fresh, deadline: Dl::Ms(deadline), sampled: false, untraced: false } });
+        let step = match rng.below(4) {
+            0 => HStep::Never,
+            _ => HStep::SleepMs(rng.range(7, 13)),
+        };
+        handlers.push(HandlerPlan { steps: vec![step], err: false, run: RunMode::Execute });
+    }
+    ServerScn {
+        resp_buf: 400,
+        limit: None,
+        link: LinkCfg { cap: 0, coupled: true, sticky: true, faults: vec![], explicit_flush: false },
+        stalls: vec![],
+        script,
+        handlers,
+        eof_at_end: true,
+        drop_stream_at: None,
+        preempt_permille: 0,
+        subscriber: 0,
+        long: false,
+        spurious_permille: 0,
+        jumps: vec![(3, 12)],
         pre_read: 0,
         chain: None,
         via_listener: false,
